@@ -271,6 +271,7 @@ def gen_history0(rng, big):
     if not shared and rng.random() < 0.5:
         G.gen_forms(rng, spec)               # dtype / container of every constructor argument
     f32 = bool(spec.get('f32'))
+    size0 = G.spec_size(spec)                # every grid of such a history has this many points
     ops = [['new', spec]]
     meta = [(spec['sys'], spec_ndim(spec), f32)]
     if shared and rng.random() < 0.4:
@@ -298,6 +299,15 @@ def gen_history0(rng, big):
         if len(meta) >= MAXLIVE and op in NONMUT:
             op = {'scaled': 'scale', 'shifted': 'shift', 'reversed': 'reverse', 'rotated': 'rotate', 'protated': 'protate', 'copy': 'mat',
                   'as': 'reverse', 'pshifted': 'pshift'}[op]
+        if rng.random() < 0.1:
+            # `grid.weights = w`: a scalar, an array the caller keeps (one object, possibly assigned to several grids), a list
+            r = rng.random()
+            if r < 0.3:
+                ops.append(['setw', i, ['ws', float(rng.choice([2.5, 0.125, 1.0, 3.0]))]])
+            else:
+                k = float(rng.choice([1.0, 0.5, 2.0]))
+                ops.append(['setw', i, ['wa' if r < 0.8 else 'wl', [k * (1.0 + 0.25 * (q % 5)) for q in range(size0)]]])
+            continue
         if op in ('scale', 'scaled'):
             ops.append([op, i, gen_scale_arg(rng, ndim, sysm == 'p')])
         elif op in ('shift', 'shifted'):
@@ -373,6 +383,14 @@ def apply_real(grids, op, pool=None):
                     return 'err:notself'
             elif kind == 'mat':
                 grids[op[1]].weights
+            elif kind == 'setw':
+                form, val = op[2]
+                if form == 'ws':
+                    grids[op[1]].weights = float(val)
+                elif form == 'wa':
+                    grids[op[1]].weights = pool.get(val) if pool is not None else np.array(val, dtype='float64')
+                else:
+                    grids[op[1]].weights = [float(v) for v in val]
             elif kind in ('scale', 'scaled'):
                 a = G.op_arg(op[2])
                 if kind == 'scaled':
@@ -534,6 +552,8 @@ def model_history_lines(case):
             lines.append('C11 %s %d [%s]' % (kind, op[1], ','.join(str(int(v)) for v in op[2])))
         elif kind == 'assame':
             lines.append('C11 same %d' % op[1])
+        elif kind == 'setw':
+            lines.append('C11 setw %d %s' % (op[1], G.w_text(op[2][1])))
         elif kind in ('scale', 'scaled'):
             a = op[2]
             lines.append('C11 %s %d %s' % (kind, op[1], ('s:' + rat(a[1])) if a[0] == 's' else ('v:' + rat_list(a[1]))))
@@ -750,6 +770,10 @@ def oracle_history(steps):
             wantP, wantW = P, W
         elif name == 'mat':
             wantP, wantW = P, W
+        elif name == 'setw':
+            # assignment of the weights: the points stay, every cell weight is the assigned one
+            wantP = P
+            wantW = np.full(len(P), float(op[2][1])) if op[2][0] == 'ws' else np.array(op[2][1], dtype='float64')
         elif name in ('scale', 'scaled'):
             if src['sys'] == 'p':
                 f = np.array([op[2][1], 1.0])
